@@ -16,10 +16,10 @@ ASSUMPTIONS = ["derivative-dependent events: a crossing is counted only when |g|
                "terminal runs: only the rows actually recorded (up to the stop) are judged"]
 FLOORS = {"quick": {"crossing_steps_fwd_dense": 50, "crossing_steps_fwd_nodense": 50, "crossing_steps_bwd_dense": 50, "crossing_steps_bwd_nodense": 50,
                     "boundary_crossings": 4, "root_finder_calls_traced": 2000, "near_boundary_crossings_end": 8, "near_boundary_crossings_start": 8,
-                    "crossings_in_terminal_runs_fwd": 10, "crossings_in_terminal_runs_bwd": 10, "crossings_sharing_the_terminal_step": 6, "terminal_stops": 20},
+                    "crossings_in_terminal_runs_fwd": 10, "crossings_in_terminal_runs_bwd": 10, "crossings_sharing_the_terminal_step": 6, "terminal_stops": 20, "crossings_of_extreme_scale_functions": 40},
           "thorough": {"crossing_steps_fwd_dense": 500, "crossing_steps_fwd_nodense": 500, "crossing_steps_bwd_dense": 500, "crossing_steps_bwd_nodense": 500,
                        "boundary_crossings": 40, "root_finder_calls_traced": 20000, "near_boundary_crossings_end": 40, "near_boundary_crossings_start": 40,
-                       "crossings_in_terminal_runs_fwd": 60, "crossings_in_terminal_runs_bwd": 60, "crossings_sharing_the_terminal_step": 30, "terminal_stops": 100}}
+                       "crossings_in_terminal_runs_fwd": 60, "crossings_in_terminal_runs_bwd": 60, "crossings_sharing_the_terminal_step": 30, "terminal_stops": 100, "crossings_of_extreme_scale_functions": 200}}
 QUICK_METHODS = ["RK45CKSolver", "DOPRI45", "RK4Solver", "EulerSolver", "RK8713MSolver", "ABAs5o6HSolver", "SymplecticEulerSolver",
                  "BackwardEuler", "RadauIIA5", "GaussLegendre4", "HeunEulerSolver", "MidpointSolver"]
 CASE_TIMEOUT = 900
@@ -43,6 +43,14 @@ def gen_cases(tier, seed):
                     dtn = "float64" if rdt < 0.7 else ("float32" if rdt < 0.85 or not info["explicit"] else "longdouble")
                     cases.append(dict(kind="random", method=name, direction=d, dense=dense, t0=t0, tf=t0 + d * L, nsteps=float(rng.uniform(25, 70)), dtype=dtn,
                                       nev=nev, pseed=int(rng.integers(1 << 30)), cost=(2 if info["explicit"] else 14) * (1 + nev / 3.0)))
+    # event functions of extreme magnitude (1e-30 .. 1e12)
+    for name in (["RK45CKSolver", "RK4Solver", "DOPRI45", "BackwardEuler"] if tier == "quick" else names):
+        for d in (1, -1):
+            for sd in ((-30, -12), (6, 12)):
+                L = float(rng.uniform(3.0, 7.0))
+                t0 = float(rng.uniform(-4, 4))
+                cases.append(dict(kind="random", method=name, direction=d, dense=bool(rng.random() < 0.5), t0=t0, tf=t0 + d * L, nsteps=float(rng.uniform(25, 70)),
+                                  nev=4, scale_decades=list(sd), pseed=int(rng.integers(1 << 30)), cost=(4 if M[name]["explicit"] else 28)))
     # crossings exactly on step boundaries: fixed-step runs on a binary grid with time events at grid points
     for name in (["RK4Solver", "EulerSolver", "ABAs5o6HSolver", "MidpointSolver"] if tier == "quick" else [n for n in M if M[n]["explicit"] and not M[n]["adaptive"]]):
         for d in (1, -1):
@@ -153,7 +161,7 @@ def run_case(spec):
             evspecs.append(random_event_spec(rng, prob, t0, tf, dim, terminal=False, kinds=["time", "component", "linear", "norm2"], tm=tau + off))
     else:
         for _ in range(spec["nev"]):
-            evspecs.append(random_event_spec(rng, prob, t0, tf, dim, terminal=False))
+            evspecs.append(random_event_spec(rng, prob, t0, tf, dim, terminal=False, scale_decades=tuple(spec.get("scale_decades", (-6, 6)))))
         if spec["nev"] >= 2 and rng.random() < 0.6:
             # different functions crossing at the SAME instant (same surface, different scale/sign): every one of them must be reported
             base_ev = evspecs[0]
@@ -230,6 +238,8 @@ def run_case(spec):
                     rec.bump(key)
                     if kind == "boundary":
                         rec.bump("boundary_crossings")
+                    if spec.get("scale_decades"):
+                        rec.bump("crossings_of_extreme_scale_functions")
                     if spec["kind"] == "near_boundary" and min(abs(a), abs(b)) <= 64 * eps * ev.gscale(tmax if ev.kind == "time" else ymax):
                         rec.bump("near_boundary_crossings")
                         rec.bump("near_boundary_crossings_%s" % ("end" if abs(b) < abs(a) else "start"))
